@@ -137,6 +137,20 @@ def export_to_geff(
     if node_ids is not None:
         graph = graph.subgraph(nodes_to_keep).copy()
 
+    # geff cannot store None: an attribute that is present with the value None is a
+    # missing value and is left out - on a private copy, never on the tracks' own graph
+    attr_dicts = [attrs for _, attrs in graph.nodes(data=True)]
+    attr_dicts += [attrs for _, _, attrs in graph.edges(data=True)]
+    if any(value is None for attrs in attr_dicts for value in attrs.values()):
+        if graph is tracks.graph:
+            graph = graph.copy()
+        for _, attrs in graph.nodes(data=True):
+            for key in [key for key, value in attrs.items() if value is None]:
+                del attrs[key]
+        for _, _, attrs in graph.edges(data=True):
+            for key in [key for key, value in attrs.items() if value is None]:
+                del attrs[key]
+
     # Save the graph in a 'tracks' folder
     tracks_path = directory / "tracks"
     geff.write(
